@@ -28,6 +28,11 @@ type Options struct {
 	OnPanic func(where string, r any)
 	// NoFields skips exported struct fields (methods only).
 	NoFields bool
+	// Args, when set, synthesises arguments for methods that take one or two
+	// simple parameters (two fixed variants each); ArgMethod says which method
+	// names are read-only. Used down to depth 1.
+	Args      func(mt reflect.Type, variant int) ([]reflect.Value, bool)
+	ArgMethod func(name string) bool
 }
 
 // BaseDeny is excluded in every world: mutators, generators, and methods that
@@ -245,6 +250,34 @@ func dumpObject(sb *strings.Builder, pv reflect.Value, opt *Options, depth int, 
 	}
 	for i := 0; i < pt.NumMethod(); i++ {
 		m := pt.Method(i)
+		if m.IsExported() && opt.Args != nil && depth <= 1 && m.Type.NumIn() >= 2 && m.Type.NumIn() <= 3 && m.Type.NumOut() > 0 && !m.Type.IsVariadic() &&
+			opt.ArgMethod != nil && opt.ArgMethod(m.Name) && !opt.denied(name, m.Name) {
+			for variant := 0; variant < 2; variant++ {
+				args, ok := opt.Args(m.Type, variant)
+				if !ok {
+					break
+				}
+				fmt.Fprintf(sb, "%s(args%d)=", m.Name, variant)
+				func() {
+					defer func() {
+						if r := recover(); r != nil {
+							sb.WriteString("panic")
+							if opt.OnPanic != nil {
+								opt.OnPanic(name+"."+m.Name, r)
+							}
+						}
+					}()
+					for j, out := range pv.Method(i).Call(args) {
+						if j > 0 {
+							sb.WriteString(",")
+						}
+						dump(sb, out, opt, depth+1, seen)
+					}
+				}()
+				sb.WriteString(";")
+			}
+			continue
+		}
 		if !m.IsExported() || m.Type.NumIn() != 1 || m.Type.NumOut() == 0 || m.Type.IsVariadic() {
 			continue
 		}
